@@ -72,7 +72,7 @@ SIG = {
     "cylindrify_edges": (["mesh", "radius", "N"], {"radius": 5e-2, "N": 50}),
     "dual_mesh": (["mesh", "mode"], {"mode": "barycenter"}),
 }
-RING_DEADLINE = 4.0  # seconds; a ring call normally takes 1-5 ms
+RING_DEADLINE = 4.0  # CPU seconds; a ring call normally takes 1-5 ms
 POINT_PARAMS = {"P0", "P1", "P2", "P3", "P4", "P5", "P6", "P7", "P8", "center"}
 STYLES = ["pos", "kw", "mix", "dflt"]
 TWO_RES = {"unit_grid": ("nu", "nv"), "unit_triangle": ("nu", "nv"), "torus": ("major_segments", "minor_segments"),
@@ -197,7 +197,11 @@ def cases(seed, tier):
         for _ in range(geo):
             r = _radius(rng)
             add("sphere_uv", {"n_lat": a, "n_long": b, "center": _center(rng, r), "radius": r})
-    for (a, b) in _pairs(rng, 3, 3, hi, 50 if quick else 1200, exhaustive_to=4 if quick else 40):
+    # segment counts for which 2*pi / (2*pi / n) rounds above n (a float-step arange over-runs there), next to ordinary ones
+    odd_counts = [61, 122, 197, 244] if quick else [61, 122, 197, 244, 343, 345, 355, 359]
+    torus_pairs = list(_pairs(rng, 3, 3, hi, 50 if quick else 1200, exhaustive_to=4 if quick else 40))
+    torus_pairs += [(n_, rng.randint(3, 6)) for n_ in odd_counts] + [(rng.randint(3, 6), n_) for n_ in odd_counts[:2 if quick else 8]]
+    for (a, b) in torus_pairs:
         for tri in (False, True) * geo:
             R_ = _radius(rng)
             add("torus", {"major_segments": a, "minor_segments": b, "major_radius": R_,
@@ -423,16 +427,17 @@ def _defect_at_height(M, N, z):
 
 
 def _with_deadline(seconds, fn):
-    """Runs fn() under a shorter watchdog than the case timeout; returns (finished, value)."""
-    t0 = time.time()
-    old = signal.setitimer(signal.ITIMER_REAL, seconds)
+    """Runs fn() under a shorter watchdog than the case budget; returns (finished, value).  The watchdog counts CPU time of this process
+    (ITIMER_PROF, like the worker's case budget), not wall-clock time: a loaded machine cannot make a terminating call look non-terminating."""
+    old = signal.setitimer(signal.ITIMER_PROF, seconds)
     try:
         return True, fn()
     except CaseTimeout:
         return False, None
     finally:
-        remaining = (old[0] - (time.time() - t0)) if old[0] > 0 else 0.0
-        signal.setitimer(signal.ITIMER_REAL, max(remaining, 1.0) if old[0] > 0 else 0.0)
+        left = signal.getitimer(signal.ITIMER_PROF)[0]
+        used = max(0.0, seconds - left)
+        signal.setitimer(signal.ITIMER_PROF, max(old[0] - used, 1.0) if old[0] > 0 else 0.0)
 
 
 def run_case(desc, ctx):
@@ -488,6 +493,32 @@ def run_case(desc, ctx):
     except _Stop:
         pass
     _sample(ctx, desc, m)
+    # history: the caller edits the mesh it was given in place (moves and rescales it, overwrites a vertex) and then asks the generator again
+    # with the same arguments: the second mesh must again be the named shape (a generator must not hand out a shared or cached object)
+    if (desc["seed"] % 4 == 1 or not p) and gen != "ring" and not ctx.violations:  # always for the generators without parameters
+        try:
+            T = M.geometry.transform if hasattr(M.geometry, "transform") else M.transform
+            T.translate(m, M.Vec(7.5, -3.25, 11.0))
+            T.scale(m, 3.0)
+            if len(m.vertices):
+                m.vertices[0] = M.Vec(1e3, 1e3, 1e3)
+        except Exception as e:
+            ctx.note("second_call:in_place_edit_failed:" + type(e).__name__)
+            return
+        args2, aux2 = _materialise(gen, p, desc)
+        if args2 is None:
+            return
+        pos2, kw2 = _split(gen, args2, style, desc["seed"])
+        ctx.cls("history:second_call_after_first_result_was_edited")
+        ok, m2 = ctx.call(gen, fn, *pos2, monitor="call", **kw2)
+        ctx.obs("call", gen + ":second_call")
+        if m2 is m:
+            ctx.violation("call", gen, "generator_returns_the_same_object_twice", "two calls of the generator returned the same mesh object")
+            return
+        try:
+            _judge(ctx, M, gen, p, tag, m2, aux2, desc)
+        except _Stop:
+            pass
 
 
 def _sample(ctx, desc, m):
